@@ -1372,7 +1372,7 @@ class TestNode(Runnable):
                 sync_scopes = set(
                     object_params.get_list("pool_scope", ["swarm", "cluster", "shared"])
                 )
-                sync_scopes.remove("own")
+                sync_scopes.discard("own")
                 node_params[f"pool_scope{suffixes}"] = " ".join(sync_scopes)
                 do = "get"
             # TODO: unfortunately we need env object with pre-processed vms in order
